@@ -270,6 +270,24 @@ def cli_case(arg):
                 if k == 3:
                     rr = rr + rr[:2]
                 compare("root-order:%d" % k, g0, a=argv + rr, expect=baser)
+        # a child that dies in the tail of its output (where the tag objects are): every root order must end in an error or
+        # in the same numbers, never in numbers that depend on the order
+        total = sum(len("%s %s %d\n" % (o.oid, o.kind, o.size)) + o.size + 1 for o in ex.reach.values() if o.kind != "blob")
+        if rb.rc == 0:
+            for k in range(4):
+                rr = list(roots)
+                rng.shuffle(rr)
+                pdir = os.path.join(d, "tailfault%d" % k)
+                plan = R.make_plan(pdir, [{"sig": "cat-file --batch", "ord": 0, "mode": "fault", "term": rng.choice(["exit:128", "sig:KILL"]),
+                                           "after_bytes": max(0, total - rng.randint(1, 300))}])
+                rf = R.sizer(sz, g0, argv + rr, shimdir=shimdir, plan=plan, tmpdir=d)
+                out["evals"] += 1
+                shutil.rmtree(pdir, ignore_errors=True)
+                if rf.rc == 0 and not rf.timed_out:
+                    jf, _ = P.parse_json(rf.out)
+                    if jf is None or numeric(jf) != baser:
+                        out["viol"].append(("numbers-differ/root-order-with-dying-child", {"roots": rr[:4], "diff": {
+                            k_: [baser.get(k_), (jf or {}).get(k_)] for k_ in baser if baser.get(k_) != (jf or {}).get(k_)}}))
         # (c) the same objects under permuted reference names
         for k in range(3):
             mk = build(name_perm=rng.getrandbits(30))
